@@ -562,11 +562,24 @@ def r12_tent(run, fx, floors=True):
             continue
         for bi in range(len(b.blocks)):
             t = b.term(bi)
-            if not (b.reachable(bi) and t["k"] == "switch" and t.get("dty") in ("i16", "i32", "i8") and len(t["arms"]) >= 2):
+            if not (b.reachable(bi) and t["k"] == "switch" and t.get("dty") in ("i16", "i32", "i8", "isize") and len(t["arms"]) >= 2):
                 continue
             prov = sym.Prov(b)
             d = sym.strip(prov.op(t["discr"]))
-            if not (d[0] == "call" and str(d[1]).endswith("::signum")):
+            by_cmp = False
+            if d[0] == "discr":
+                # match x.cmp(&0) { Less / Equal / Greater }
+                inner = d[1]
+                while inner[0] in ("ref", "deref"):
+                    inner = inner[1]
+                z = sym.strip(inner[2][1]) if inner[0] == "call" and str(inner[1]).endswith("::cmp") and len(inner[2]) == 2 else None
+                while z is not None and z[0] in ("ref", "deref"):
+                    z = sym.strip(z[1])
+                if z is None or not (z[0] == "c" and z[1] == 0 or (z[0] == "promoted" and "const 0_" in " ".join(z[1]))):
+                    continue
+                by_cmp = True
+                bits_override = 8
+            elif not (d[0] == "call" and str(d[1]).endswith("::signum")):
                 continue
             import loops
             hdrs = [lp[0] for lp in loops.natural_loops(b) if bi in lp[1]]
@@ -574,9 +587,17 @@ def r12_tent(run, fx, floors=True):
             if w.dropped or not w.paths:
                 run.notes.append("%s: implied region in %s not decided (%s)" % (rule, b.path, "; ".join(w.dropped) or "no path"))
                 continue
-            bits = {"i16": 16, "i32": 32, "i8": 8}[t["dty"]]
+            bits = 8 if by_cmp else {"i16": 16, "i32": 32, "i8": 8}.get(t["dty"], 8)
             problems = []
             decided = 0
+
+            def resolve(name, b=b, prov=prov):
+                # a local assigned before the switch (`let zero = F2Dot14::from(0)`): its single definition
+                for l in range(b.arg_count + 1, len(b.locals)):
+                    if b.local_name(l) == name:
+                        tm = sym.strip(prov.local(l))
+                        return None if tm[0] == "local" else tm
+                return None
             for conds, env, _end, _kind in w.paths:
                 # the walk starts at the switch on the sign: its arm is the first condition of the path
                 v = conds[0][1] if conds else None
@@ -598,7 +619,7 @@ def r12_tent(run, fx, floors=True):
                     continue
                 decided += 1
                 for pk in ([Fraction(-1), Fraction(-1, 4)] if sgn < 0 else [Fraction(1, 4), Fraction(1)] if sgn > 0 else [Fraction(0)]):
-                    ev = fnread.GridEval({"peak": pk})
+                    ev = fnread.GridEval({"peak": pk}, resolve=resolve)
                     try:
                         st, en = ev.ev(pushes["start"][0]), ev.ev(pushes["end"][0])
                     except (fnread.Undecided, fnread.DivZero) as e:
